@@ -56,17 +56,47 @@ def worker_init() -> None:
     G["handler"] = handler
     G["LogMode"] = LogMode
 
-    class Capture:
-        def __init__(self) -> None:
-            self.got: list[Any] = []
+    # A real DBHandler, connected for real (sqlite3 behind vf.engine.dbshim on a virtual loop). Only public API is used;
+    # the writer queue is found by type, so private attribute names of DBHandler do not matter.
+    import asyncio
+    import os
 
-        async def put(self, x: Any) -> None:
-            self.got.append(x)
+    from vf.engine import dbshim, seams
+    from vf.engine.explore import Policy, Run, run_once
 
-    db = handler.DBHandler(Path("/nonexistent/c02.sqlite"))
-    db.connection = object()  # type: ignore[assignment]  (only asserted to be not None)
-    db.scan_run = 1
-    db._execute_queue = Capture()  # type: ignore[assignment]
+    seams.patch_gallia(db=True)
+    dbdir = Path(f"/dev/shm/vf-c02-{os.getppid()}")
+    dbdir.mkdir(parents=True, exist_ok=True)
+    dbpath = dbdir / f"c02-{os.getpid()}.sqlite"
+    for suffix in ("", "-wal", "-shm"):
+        try:
+            os.unlink(str(dbpath) + suffix)
+        except FileNotFoundError:
+            pass
+    db = handler.DBHandler(dbpath)
+
+    class Cfg:
+        def model_dump_json(self) -> str:
+            return "{}"
+
+    def scenario(run: Run) -> None:
+        run.add_actor(dbshim.DbWorker())
+
+        async def main() -> None:
+            await db.connect()
+            await db.insert_run_meta("vf.c02", Cfg(), datetime(2026, 1, 1, tzinfo=UTC), None)
+            await db.insert_scan_run("c02://ecu")
+
+        t = run.loop.create_task(main())
+        run.done = t.done
+
+    r = run_once(scenario, [], Policy())
+    if r.status != "done":
+        raise Broken(f"could not connect the DBHandler: {r.status}")
+    queues = [v for v in vars(db).values() if isinstance(v, asyncio.Queue)]
+    if len(queues) != 1:
+        raise Broken(f"DBHandler has {len(queues)} asyncio.Queue attributes after connect(); expected exactly one writer queue")
+    G["queue"] = queues[0]
     G["db"] = db
     G["trigger"] = service.TesterPresentRequest()
     G["when"] = datetime(2026, 1, 1, tzinfo=UTC)
@@ -81,32 +111,49 @@ def drive(coro: Any) -> Any:
     raise Broken("DB coroutine suspended")
 
 
+def _take_row() -> dict[str, Any]:
+    """the INSERT the handler queued for its writer task, as column -> parameter"""
+    q = G["queue"]
+    items = []
+    while not q.empty():
+        items.append(q.get_nowait())
+    if len(items) != 1:
+        raise Broken(f"insert_scan_result queued {len(items)} statements")
+    item = items[0]
+    query = next(x for x in item if isinstance(x, str))
+    params = next(x for x in item if isinstance(x, tuple | list))
+    cols = [c.strip() for c in query[query.index("(") + 1 : query.index(")")].split(",")]
+    if len(cols) != len(params):
+        raise Broken("cannot map the queued INSERT to its columns")
+    return dict(zip(cols, params, strict=True))
+
+
 def stored_hex(resp: Any) -> tuple[str | None, str | None]:
     """what the real insert_scan_result would write into scan_result.response_pdu; (value, error)"""
     db = G["db"]
-    db._execute_queue.got.clear()
+    while not G["queue"].empty():
+        G["queue"].get_nowait()
     try:
         drive(db.insert_scan_result({}, G["trigger"], resp, None, G["when"], G["when"], G["LogMode"].implicit))
     except Broken:
         raise
     except Exception as e:  # noqa: BLE001  (observation: the row cannot be built)
         return None, type(e).__name__
-    (_, params), = db._execute_queue.got
-    return params[6], None
+    return _take_row()["response_pdu"], None
 
 
 def stored_request_hex(req: Any) -> tuple[str | None, str | None]:
     """what the real insert_scan_result would write into scan_result.request_pdu; (value, error)"""
     db = G["db"]
-    db._execute_queue.got.clear()
+    while not G["queue"].empty():
+        G["queue"].get_nowait()
     try:
         drive(db.insert_scan_result({}, req, None, None, G["when"], None, G["LogMode"].implicit))
     except Broken:
         raise
     except Exception as e:  # noqa: BLE001
         return None, type(e).__name__
-    (_, params), = db._execute_queue.got
-    return params[2], None
+    return _take_row()["request_pdu"], None
 
 
 # -- discovery -----------------------------------------------------------------------
@@ -535,6 +582,10 @@ def replay(doc: dict[str, Any]) -> Result:
 
 
 def finish(merged: Result, tier: str) -> dict[str, Any]:
+    import os
+    import shutil
+
+    shutil.rmtree(f"/dev/shm/vf-c02-{os.getpid()}", ignore_errors=True)
     c = merged.counters
     for key, least in (("typed", 5000), ("rejected", 5000), ("kept_raw", 1000), ("constructions", 300)):
         if c.get(key, 0) < least:
